@@ -42,7 +42,7 @@ CHECKS["C19"] = dict(
          "the solver decides the extension dimension. Trusted: z3, the dumper, the set-theoretic definition of complete extensions.",
     design="DESIGN.md section 4 (C19)")
 CHECKS["C05"] = dict(
-    category="other",
+    category="model_checking",
     technique="Kani/CBMC bounded model checking of Query::read_problem_string over all ASCII strings of <= 6 bytes",
     text="Only the string layer of the property is within reach of solver-based checking: for every ASCII string of at most 6 bytes "
          "read_problem_string succeeds exactly on the 21 listed problem strings (case-insensitively) with the right meaning and never "
